@@ -348,7 +348,18 @@ CONTRACTS = CONTRACTS + [RetryFactory()]
 
 
 def extra_contracts():
-    return mimic_variants("C14")
+    # the retry loops call ctx.log_error between attempts from inside their `except` handler and treat it as a callee that never
+    # raises (an exception there would end the loop after one attempt and replace the function's outcome): C19's never-raises
+    # clauses of ctx.log_error and of ScopeMetrics.log - for a scope in any stage of its life, a task that outlives its scope
+    # still logs through it
+    from .C19 import ScopeLog, ContextLog
+    from .C02 import variant
+    # (the clauses about *where* the line goes are kept too: they are what a path that returns normally is checked for)
+    never = lambda n: "never-raises" in n or "exactly-one-record" in n or "goes-to-the-current-scope" in n \
+        or "one-untagged-line" in n      # noqa: E731
+    log_error = type("Log_error_ctx", (ContextLog,), dict(file="context/access.py", func="ctx.log_error",
+                                                          name="C19/access:ctx.log_error", level_fn="log_error", via_ctx=True))
+    return mimic_variants("C14") + [variant(ScopeLog, "C14", never), variant(log_error, "C14", never)]
 
 
 class RetryShape(DecoratorShape):
